@@ -6,7 +6,7 @@ import verde as vd
 from hypothesis import strategies as st
 
 from vlib import blocks, build, gen
-from vlib.oracles import EPS
+from vlib.oracles import EPS, exact
 from vlib.runner import Sub, Violation
 
 PROPERTY = "C08"
@@ -89,7 +89,7 @@ def check(case, ctx):
             i, j = divmod(b, g["nb_e"])
             cx = g["W"] + (Fraction(2 * j + 1, 2)) * g["dx"]
             cy = g["S"] + (Fraction(2 * i + 1, 2)) * g["dy"]
-            if abs(Fraction(float(be[b])) - cx) > Fraction(8 * EPS * scale) or abs(Fraction(float(bn[b])) - cy) > Fraction(8 * EPS * scale):
+            if abs(exact(be[b], "block centre") - cx) > Fraction(8 * EPS * scale) or abs(exact(bn[b], "block centre") - cy) > Fraction(8 * EPS * scale):
                 ok = False
                 last_why = "block %d centre (%r, %r) != (%r, %r) (row-major from SW corner, pixel registered)" % (
                     b, float(be[b]), float(bn[b]), float(cx), float(cy))
